@@ -135,7 +135,10 @@ TOutcome ==
           /\ ~Has(codes, 102)                                         \* inputs are far below 2 GiB
     /\ ph' = "idle" /\ UNCHANGED f /\ Step
 
-TNext == TInput \/ TTokCap \/ TTokFull \/ TTokLen \/ TNodeCap \/ TFrom \/ TFind \/ TResv \/ TResvDrop
+\* the sentinel the harness writes after the last run: only a complete run may precede it
+TEnd == /\ Ev("end") /\ ph = "idle" /\ ph' = "ended" /\ UNCHANGED f /\ Step
+
+TNext == TEnd \/ TInput \/ TTokCap \/ TTokFull \/ TTokLen \/ TNodeCap \/ TFrom \/ TFind \/ TResv \/ TResvDrop
          \/ TZStart \/ TZone \/ TDecl \/ TNodeLen \/ THSkip \/ THStep \/ THLen \/ TOutcome
 TSpec == TInit /\ [][TNext]_tvars
 
